@@ -7,7 +7,7 @@ CONSTANTS
   Params <- MCParams
   ParamSeq <- ParamsThorough
   Times = {0, 250, 1000, 1750, 2000, 3000, 4000, 9000}
-  MaxCalls = 6
+  MaxCalls = 7
   RefillByMillis = FALSE
 INIT MCInit
 NEXT MCNext
